@@ -152,7 +152,18 @@ def run(ctx):
     cc = class_codec(F)
     parsed, rng, answered, okc = cc['parsed'], cc['rng'], cc['answered'], cc['class_ok']
     rep.check(r1, rng(parsed['id']) == ((4, 20), 'read_u128', True), 'parse:id', 'id <- %s' % short(parsed['id']), '%s:%d' % (new.file, new.line))
-    rep.check(r1, rng(parsed['length']) == ((2, 4), 'read_u16', True), 'parse:length', 'length <- %s' % short(parsed['length']))
+    okl = rng(parsed['length']) == ((2, 4), 'read_u16', True)
+    if not okl:
+        # any other spelling of "bytes 2..4, big-endian": decided on the bits of the stored value
+        from vlib.bits import BitEval
+
+        def dsrc(e):
+            if isinstance(e, tuple) and e[0] == 'entry' and isinstance(e[1], tuple) and e[1][0] == 'index' and e[1][1] in (('deref', ('param', 1)), ('param', 1)) and const_val(e[1][2]) is not None:
+                return ('d%d' % const_val(e[1][2]), 8)
+            return None
+        b_ = BitEval(dsrc).bits(parsed['length'])
+        okl = b_ is not None and list(b_)[:16] == [('in', 'd3', k) for k in range(8)] + [('in', 'd2', k) for k in range(8)] and all(x == 0 for x in list(b_)[16:])
+    rep.check(r1, okl, 'parse:length', 'length <- %s' % short(parsed['length']))
     rep.check(r1, answered == [1], 'parse:request-test', 'with first byte 00, (class,method) == (0,1) exactly for second byte(s) %s' % [hex(x) for x in answered])
     # class bits follow RFC 5389 (C1 = byte0 bit0, C0 = byte1 bit4) on all 65536 combinations
     rep.check(r1, okc, 'parse:class-bits', 'class = (byte0 bit0, byte1 bit4) for all 65536 leading byte pairs: %s' % okc)
@@ -203,13 +214,14 @@ def run(ctx):
 
     r2 = rep.rule('C15-R2', 'MAPPED-ADDRESS reflects the observed endpoint: built from client_info.ip.src / port.src, type 0x0001, family 1/2 and value length 8/20 selected by the address variant, serialised as type length reserved family port address', floor=6)
     mk = rp.calls(r'StunMappedAddressAttribute::new$')
-    ok = len(mk) == 1
+    ok = rp.n_sites([b_ for b_, _ in mk]) == 1
     if ok:
         a0, a1 = peel(rp.argv(mk[0][0], 0)), peel(rp.argv(mk[0][0], 1))
 
         def ci(e, path):
-            return isinstance(e, tuple) and e[0] == 'entry' and [p[1] for p in Fn.path_of(e[1]) if p[0] == 'f'] == path and Fn.root_of(e[1]) == ('deref', ('param', 3))
-        ok = ci(a0, ['ip', 'src']) and ci(a1, ['port', 'src'])
+            # client_info.<path>, unwrapped by unwrap() or by a pattern (`Some(ip)`: the payload field "0" of the variant)
+            return isinstance(e, tuple) and e[0] == 'entry' and [p[1] for p in Fn.path_of(e[1]) if p[0] == 'f' and p[1] != '0'] == path and Fn.root_of(e[1]) == ('deref', ('param', 3))
+        ok = all(ci(peel(rp.argv(b_, 0)), ['ip', 'src']) and ci(peel(rp.argv(b_, 1)), ['port', 'src']) for b_, _ in mk)
     rep.check(r2, ok, 'mapped:inputs', 'MAPPED-ADDRESS built from (%s, %s)' % ((short(a0), short(a1)) if mk else ('?', '?')), rp.loc(mk[0][0]) if mk else '')
     # the only attribute pushed is that one
     for b in pushes:
@@ -314,6 +326,10 @@ def run(ctx):
                 _, exits = fact_sim(g, lambda k: True)
                 crx = [facts for (_, (_, facts)) in exits if any(isinstance(k, tuple) and k[0] == 'discr' and r_ == '==' and c_ == cr for (k, r_, c_) in facts)]
                 tested = all(any(short(k).endswith('.change_port') for (k, r_, c_) in facts) for facts in crx)
+                if not tested:
+                    # the predicate hands the flag back instead of branching on it: its value is change_port or the constant false
+                    rv_ = [a_ for rb_ in g.return_blocks() for a_ in palts(g.ret_value(rb_))]
+                    tested = bool(rv_) and all(const_val(a_) == 0 or short(a_).endswith('.change_port') for a_ in rv_) and any(short(a_).endswith('.change_port') for a_ in rv_)
                 r_ = rp.reachable(0, removed_blocks=[anyb[0][0]])
                 ok = bool(crx) and tested and not any(x in r_ for x in some_points(rp))
                 cp = [anyb[0][0]]
